@@ -632,6 +632,12 @@ class Evaluator:
                 return range(*args)
             if n == "zip":
                 return list(zip(*args))
+            if n == "hash":
+                if any(isinstance(a, Obj) for a in args):
+                    raise TypeError("hash of a modelled object")  # the repo's classes either disable or do not define __hash__
+                import builtins as _b
+
+                return _b.hash(*args)
             if n in ("dict", "list", "set", "sorted", "min", "max", "enumerate", "abs", "int", "str", "repr", "iter", "next",
                      "frozenset", "hasattr", "print", "id"):
                 import builtins as _b
